@@ -7,6 +7,7 @@ import GasolVerif.Models.Spec
 import GasolVerif.Models.SpecSem
 import GasolVerif.Models.PlainIO
 import GasolVerif.Models.EncodingIO
+import GasolVerif.Models.Cmp
 open GasolVerif
 
 def parseWords? (s : String) : Option (List Word) :=
@@ -84,6 +85,7 @@ def handle (line : String) : String :=
   | ["PLAINPRINT", p0, items] => Plain.handlePlainPrint p0 items
   | ["ENC", bs, b0, lim, mode, term, instrs, src, tgt, terms, memenc, pairs, ls, ledges, wts, emp] =>
     Enc.handleEnc bs b0 lim mode term instrs src tgt terms memenc pairs ls ledges wts emp
+  | ["CMP", so, sp, pairs] => Cmp.handleCmp so sp pairs
   | _ => "error:unknown-request"
 
 partial def loop (h : IO.FS.Stream) (out : IO.FS.Stream) : IO Unit := do
